@@ -199,6 +199,8 @@ __strpd_card(struct strpd_s *d, const char *sp, struct dt_spec_s s, char **ep)
 	case DT_SPFL_UNK:
 		break;
 	case DT_SPFL_N_DSTD:
+		/* month and day of the month to come */
+		d->flags.d_dcnt_p = 0;
 		d->y = strtoi_lim(sp, &sp, DT_MIN_YEAR, DT_MAX_YEAR);
 		sp += *sp != '\0';
 		d->m = strtoi_lim(sp, &sp, 0, GREG_MONTHS_P_YEAR);
@@ -272,8 +274,16 @@ __strpd_card(struct strpd_s *d, const char *sp, struct dt_spec_s s, char **ep)
 	case DT_SPFL_N_DCNT_MON:
 		/* ymd mode? */
 		if (LIKELY(!s.bizda)) {
-			d->d = padstrtoi_lim(sp, &sp, 0, 31);
-			res = 0 - (d->d < 0);
+			int md = padstrtoi_lim(sp, &sp, 0, 31);
+
+			res = 0 - (md < 0);
+			if (d->flags.d_dcnt_p && !d->m) {
+				/* the day of the year says more */
+				;
+			} else if (md >= 0) {
+				d->d = md;
+				d->flags.d_dcnt_p = 0;
+			}
 		} else {
 			d->b = strtoi_lim(sp, &sp, 0, 23);
 			res = 0 - (d->b < 0);
@@ -454,10 +464,16 @@ __strpd_rom(struct strpd_s *d, const char *sp, struct dt_spec_s s, char **ep)
 		d->m = romstrtoi_lim(sp, &sp, 0, GREG_MONTHS_P_YEAR);
 		res = 0 - (d->m < 0);
 		break;
-	case DT_SPFL_N_DCNT_MON:
-		d->d = romstrtoi_lim(sp, &sp, 0, 31);
-		res = 0 - (d->d < 0);
+	case DT_SPFL_N_DCNT_MON: {
+		int md = romstrtoi_lim(sp, &sp, 0, 31);
+
+		res = 0 - (md < 0);
+		if (md >= 0 && !(d->flags.d_dcnt_p && !d->m)) {
+			d->d = md;
+			d->flags.d_dcnt_p = 0;
+		}
 		break;
+	}
 	case DT_SPFL_N_WCNT_MON:
 		d->c = romstrtoi_lim(sp, &sp, 0, 5);
 		res = 0 - (d->c < 0);
